@@ -487,7 +487,17 @@ func c18Stress(r *ev.Run, m *dyn.Model, p *prng.R, batch, si int) {
 					do("WhereAll.List", func() error {
 						md := m.NewModel("T", "", nil)
 						res := reflect.New(reflect.SliceOf(reflect.PtrTo(tT)))
-						err := cl.WhereAll(md, model.Condition{Field: m.FieldPtr("T", md, "a"), Function: ovsdb.ConditionGreaterThan, Value: 1}).List(ctx, res.Interface())
+						cond := model.Condition{Field: m.FieldPtr("T", md, "a"), Function: ovsdb.ConditionGreaterThan, Value: 1}
+						if wp.Bool() {
+							// a lone condition on the uuid
+							cond = model.Condition{Field: m.FieldPtr("T", md, "_uuid"), Function: ovsdb.ConditionEqual, Value: e.uuids[wp.Intn(len(e.uuids))]}
+						}
+						var err error
+						if wp.Bool() {
+							err = cl.WhereAll(md, cond).List(ctx, res.Interface())
+						} else {
+							err = cl.WhereAny(md, cond).List(ctx, res.Interface())
+						}
 						if err == nil {
 							for i := 0; i < res.Elem().Len(); i++ {
 								checkModels("WhereAll.List", "T", res.Elem().Index(i).Interface())
@@ -535,6 +545,23 @@ func c18Stress(r *ev.Run, m *dyn.Model, p *prng.R, batch, si int) {
 						}
 						_ = rc.Len()
 						_, _ = rc.Index("name")
+						// the single "_uuid ==" condition and the by-model lookups take their own paths
+						u := e.uuids[wp.Intn(len(e.uuids))]
+						if rows, err := rc.RowsByCondition([]ovsdb.Condition{{Column: "_uuid", Function: ovsdb.ConditionEqual, Value: ovsdb.UUID{GoUUID: u}}}); err == nil {
+							for _, md := range rows {
+								checkModels("Cache.RowsByCondition(_uuid)", "T", md)
+							}
+						}
+						if rows, err := rc.RowsByModels([]model.Model{m.NewModel("T", u, nil), m.NewModel("T", "", ref.Row{"name": ref.Set(ref.Str("r2"))})}); err == nil {
+							for _, md := range rows {
+								checkModels("Cache.RowsByModels", "T", md)
+							}
+						}
+						_ = rc.HasRow(u)
+						_ = rc.IndexExists(m.NewModel("T", "", ref.Row{"name": ref.Set(ref.Str("r3"))}))
+						_ = tc.Tables()
+						_ = tc.Mapper()
+						_ = tc.DatabaseModel()
 						return err
 					})
 				case x < 66:
